@@ -77,3 +77,6 @@ Theorem C03_exact_count_unless_one_repeated_term : forall docs bs ph, wf_docs do
   exists ix, index false bs docs = AOk ix /\ phrase_freqs ix ph = AOk (phrase_spec docs ph).
 Proof. exact phrase_exact_nonconst_on_index. Qed.
 Print Assumptions C03_exact_count_unless_one_repeated_term.
+
+(* Assumptions of the remaining named statements of this file (the gate requires one per statement). *)
+Print Assumptions C03_positive_iff_phrase_occurs.
